@@ -188,6 +188,7 @@ def catalogue():
          fn(i32, i32, s), fn(i32, wi, s), fn(None, vector(i32)), fn(None, array(i32, 3)), fn(i32, s, i32),
          fn(i32, cref(s), i32), fn(None, cref(vector(i32))), fn(i32, cref(i32), cref(s)),
          carray(carray(i32, 3), 2), carray(carray(i32, 4), 2), array(carray(i32, 3), 2), array(carray(i32, 4), 2), array(array(i32, 3), 2),
+         vector(array(i32, 3)), vector(vector(i32)), tup(cref(array(i32, 3)), cref(array(i32, 3))), tup(cref(vector(i32)), cref(vector(i32))),
          tup(carray(i32, 3)), tup(carray(i32, 4)), tup(array(i32, 3)), pair(carray(i32, 3), i32), pair(carray(i32, 4), i32), pair(array(i32, 3), i32),
          tup(vector(i32), f32), tup(array(i32, 3), f32), pair(vector(i32), f32), tup(wi, s), array(tup(i32, s), 2), vector(pair(wi, s))]
     return c
@@ -236,6 +237,8 @@ def doc(a, b):
         return all2(x[1], y[1])
     if {x[0], y[0]} == {'seq', 'tuple'}:
         s_, t_ = (x, y) if x[0] == 'seq' else (y, x)
+        if any(q['cpp'].startswith('const ') and q['cpp'].endswith('&') for q in t_[1]):
+            return False        # tuples of references (std::tie / forward_as_tuple) against sequences: not documented either way
         if s_[2]['integral'] or (s_[3] is not None and s_[3] != len(t_[1])):
             return False
         return all(doc(s_[2], q) for q in t_[1])
